@@ -510,7 +510,57 @@ func safeStr(f func() string) (s string) {
 	return f()
 }
 
+// ParamTable: the table the model calls param_fields, read off the REAL code at run time: the fields of
+// TerminalParamDetails in declaration order (id from the field name T0x<id>, kind from the type parameter of its
+// ParamContent), and for each whether parseParam has a typed case for the id (probe: a one-parameter body of the
+// kind's width must land in that field and not in OtherContent).  "id:kind" joined by commas; kind 32 16 8 s b4 b8,
+// or none for a declared field the parser never fills.
+func ParamTable() string {
+	var out []string
+	d0 := reflect.TypeOf(model.TerminalParamDetails{})
+	for i := 0; i < d0.NumField(); i++ {
+		name := d0.Field(i).Name
+		if len(name) < 6 || name[:3] != "T0x" {
+			continue
+		}
+		id64, err := strconv.ParseUint(name[3:6], 16, 32)
+		if err != nil {
+			continue
+		}
+		vt, _ := d0.Field(i).Type.FieldByName("Value")
+		kind, width := "?", 0
+		switch vt.Type.Kind() {
+		case reflect.Uint32:
+			kind, width = "32", 4
+		case reflect.Uint16:
+			kind, width = "16", 2
+		case reflect.Uint8:
+			kind, width = "8", 1
+		case reflect.String:
+			kind, width = "s", 3
+		case reflect.Array:
+			kind, width = fmt.Sprintf("b%d", vt.Type.Len()), vt.Type.Len()
+		}
+		body := append([]byte{1, byte(id64 >> 24), byte(id64 >> 16), byte(id64 >> 8), byte(id64), byte(width)}, make([]byte, width)...)
+		for k := 6; k < len(body); k++ {
+			body[k] = 0x31
+		}
+		h := &model.P0x8103{}
+		filled := false
+		if ParseInto(h, 2, Exact(body)) == "ok" {
+			f := reflect.ValueOf(h.TerminalParamDetails).Field(i)
+			filled = f.FieldByName("ID").Uint() == id64 && f.FieldByName("Len").Uint() == uint64(width)
+		}
+		if !filled {
+			kind = "none"
+		}
+		out = append(out, fmt.Sprintf("%x:%s", id64, kind))
+	}
+	return strings.Join(out, ",")
+}
+
 func init() {
+	RegisterOp("ptable", func(a []string) string { return safeStr(ParamTable) })
 	RegisterOp("bparse", func(a []string) string {
 		return BodyParse(BodyTypeByName(a[0]), atoi(a[1]), atoi(a[2]), Unhx(a[3]))
 	})
